@@ -44,6 +44,12 @@ def _child_setup():
     # own process group (so the whole solver can be killed) and die with the parent (no orphaned solvers burning CPU)
     os.setsid()
     try:
+        import resource
+        lim = int(os.environ.get('XSYM_SOLVER_MEM_GB', '8')) << 30
+        resource.setrlimit(resource.RLIMIT_AS, (lim, lim))
+    except Exception:
+        pass
+    try:
         import ctypes
         ctypes.CDLL('libc.so.6', use_errno=True).prctl(1, signal.SIGKILL)
     except Exception:
